@@ -489,7 +489,7 @@ func judge(c Case, o dialOutcome, brokers []*broker) (string, bool) {
 		}
 		b.mu.Unlock()
 	}
-	if len(c.Brokers) == 1 && c.Proxy == "" && !c.Brokers[0].Down && c.Brokers[0].Reply == "failure" && !hasLegit(c.Brokers[0]) {
+	if len(c.Brokers) == 1 && c.Proxy == "" && !c.Nested && !c.Brokers[0].Down && c.Brokers[0].Reply == "failure" && !hasLegit(c.Brokers[0]) {
 		replied := false
 		for _, e := range c.Brokers[0].Order {
 			if e == -1 {
